@@ -523,6 +523,25 @@ def s9(ctx):
             ctx.violate(b.key, None, 'non-blocking operation can reach %s via %s' % (f, ' -> '.join(tc[f])), sig=f)
         if nm != 'drain_into' and b.has_cycle():
             ctx.violate(b.key, None, 'non-blocking operation contains a loop', sig='cycle')
+        # every crate-local body it can reach is loop-free as well (bounded number of steps), except the scans over the
+        # wait list, which are bounded by its length
+        visited = set()
+        work = [b]
+        while work:
+            cur = work.pop()
+            for bb, t in cur.all_calls():
+                fn = t.get('fn')
+                if not fn or not fn.get('local'):
+                    continue
+                if mircanon(fn['path']) in stop:
+                    continue
+                c = ctx.facts.bodies.get(fn['path']) or ctx.facts.bodies.get(fn.get('resolved') or '')
+                if c is None or c.key in visited:
+                    continue
+                visited.add(c.key)
+                work.append(c)
+                if c.has_cycle():
+                    ctx.violate(b.key, None, 'non-blocking operation reaches %s, which contains a loop (unbounded number of steps)' % c.key, sig='callee-cycle:' + c.key)
         if nm.endswith('_realtime'):
             ctx.oblige(1)
             tc2 = transitive_callees(ctx.facts, b, stop={'internal::try_acquire_internal'})
